@@ -13,12 +13,16 @@ Spec (all ints are reduced modulo the number of options):
     idmode   0,1 ids 1..n; 2 increasing with gaps; 3 decreasing (non-sorted but grouped)
     intcols  integer dtype for the flag-like columns (MDV EVID CMT ADMID SS ADDL DVID)
     restart  TIME restarts at reset events (EVID 3/4) instead of running on
+    dropped  which of the existing optional columns (keys of DROPPABLE) are marked drop=True in the
+             datainfo ("barred from being used"): the column stays in the dataset, but meta describes the
+             table as if it were absent; dropvia: True = through drop_columns(model, names, mark=True),
+             False = ColumnInfo(drop=True) (interpreted by the check module); absent = nothing dropped
     inds     1-6 individuals: gap, t0, c0, recs = 1-12 records
     rec      dt (time increment index, 0 = tie with previous record), k (0 observation, 1 dose,
              2 other event EVID=2, 3 reset EVID=3, 4 reset+dose EVID=4, 5 missing observation
              MDV=1), amt (1-5: 10..50; 6-10: 0.5, 2.5, 0.25, 0.75, 1.5), dv, route, addl, ii, ss, rate, cov, dvid,
              na (bit mask of missing values (NaN) in this record: 1 first covariate, 2 second covariate,
-             4 DV of a record that is not an observation; absent = 0 = nothing missing)
+             4 DV of a dose record; absent = 0 = nothing missing)
 """
 
 from __future__ import annotations
@@ -37,6 +41,7 @@ MODELINFO = {
 COVS = ['WGT', 'AGE']
 NAN = float('nan')
 FRACTIONAL = [0.5, 2.5, 0.25, 0.75, 1.5]
+DROPPABLE = {'mdv': 'MDV', 'evid': 'EVID', 'cmt': 'CMT', 'admid': 'ADMID', 'rate': 'RATE', 'ss': 'SS', 'addl': 'ADDL', 'ii': 'II', 'dvid': 'DVID', 'cov0': 'WGT', 'cov1': 'AGE'}
 
 REC = st.fixed_dictionaries(
     dict(
@@ -68,6 +73,9 @@ TABLE = st.fixed_dictionaries(
         intcols=st.booleans(),
         restart=st.sampled_from([False, False, False, True]),
         inds=st.lists(IND, min_size=1, max_size=6),
+        # columns marked as dropped in the datainfo (two thirds of the tables: none)
+        dropped=st.one_of(st.just({}), st.just({}), st.fixed_dictionaries({c: st.sampled_from([False, False, True]) for c in DROPPABLE})),
+        dropvia=st.booleans(),
     )
 )
 
@@ -76,7 +84,9 @@ class Table:
     """records (list of dict), meta (roles, see pv.ref.eventwalk), types (column -> pharmpy
     column type), kind ('iv' | 'oral' | 'ivoral'), flags"""
 
-    def __init__(self, records, meta, types, kind, flags):
+    def __init__(self, records, meta, types, kind, flags, dropped=(), dropvia=False):
+        self.dropped = list(dropped)
+        self.dropvia = dropvia
         self.records = records
         self.meta = meta
         self.types = types
@@ -89,7 +99,7 @@ class Table:
 
     def render(self):
         cols = self.columns
-        lines = [' '.join(cols) + f'   [{self.kind}' + ''.join(f' {k}' for k, v in sorted(self.flags.items()) if v) + ']']
+        lines = [' '.join(cols) + f'   [{self.kind}' + ''.join(f' {k}' for k, v in sorted(self.flags.items()) if v) + ''.join(f' dropped:{c}' for c in self.dropped) + ']']
         for r in self.records:
             lines.append(' '.join(_fmt(r[c]) for c in cols))
         return lines
@@ -124,7 +134,10 @@ def build(spec) -> Table:
     idname = 'SUBJ' if _int(_get(spec, 'idname')) % 8 == 7 else 'ID'
     idmode = _int(_get(spec, 'idmode')) % 4
     intcols = bool(_get(spec, 'intcols', False))
-    restart = bool(_get(spec, 'restart', False))
+    dspec = _get(spec, 'dropped', {})
+    drop = {k: bool(_get(dspec, k, False)) for k in DROPPABLE}
+    # a clock restart needs an active event column (TIME must not decrease without a reset event)
+    restart = bool(_get(spec, 'restart', False)) and not drop['evid']
     inds = list(_get(spec, 'inds', []))[:6] or [dict(recs=[{}])]
     has_ii = has['ss'] or has['addl']
     info = MODELINFO[kind]
@@ -208,7 +221,8 @@ def build(spec) -> Table:
             if has['addl']:
                 rec['ADDL'] = flag(addl)
             na = _int(_get(r, 'na')) % 8
-            rec['DV'] = 0.5 * (_int(_get(r, 'dv')) % 10) if k == 0 else (NAN if na & 4 else 0.0)
+            # DV may be missing on dose records only (never an observation, whatever columns are active)
+            rec['DV'] = 0.5 * (_int(_get(r, 'dv')) % 10) if k == 0 else (NAN if (na & 4 and dose) else 0.0)
             if has['mdv']:
                 rec['MDV'] = flag(0 if k == 0 else 1)
             if has['evid']:
@@ -225,19 +239,26 @@ def build(spec) -> Table:
             rec['ROW'] = float(len(records))
             records.append(rec)
 
+    dropped = [c for k, c in DROPPABLE.items() if drop[k] and c in columns]
+
+    def active(c):
+        return c if c not in dropped else None
+
+    covs_all = covs
+    covs = [c for c in covs if c not in dropped]
     meta = dict(
         columns=columns,
         id=idname,
         idv='TIME',
         dv='DV',
         dose='AMT',
-        mdv='MDV' if has['mdv'] else None,
-        event='EVID' if has['evid'] else None,
-        ss='SS' if has['ss'] else None,
-        ii='II' if has_ii else None,
-        addl='ADDL' if has['addl'] else None,
-        cmt='CMT' if has['cmt'] else None,
-        admid='ADMID' if has['admid'] else None,
+        mdv=active('MDV') if has['mdv'] else None,
+        event=active('EVID') if has['evid'] else None,
+        ss=active('SS') if has['ss'] else None,
+        ii=active('II') if has_ii else None,
+        addl=active('ADDL') if has['addl'] else None,
+        cmt=active('CMT') if has['cmt'] else None,
+        admid=active('ADMID') if has['admid'] else None,
         covariates=covs,
         model=info,
     )
@@ -248,4 +269,5 @@ def build(spec) -> Table:
         ids_unsorted=idmode == 3 and len(ids) > 1,
         id_not_named_ID=idname != 'ID',
     )
-    return Table(records, meta, types, kind, flags)
+    meta['all_covariates'] = covs_all
+    return Table(records, meta, types, kind, flags, dropped=dropped, dropvia=bool(_get(spec, 'dropvia', False)))
